@@ -11,7 +11,8 @@ CHECKS = {
             'Held on N thousand generated statecharts x histories x guard valuations: after every macro step the fired set, '
             'the consumed event and the event seen by each guard probe equal what the documented selection rule gives. '
             'Sampling of a universally quantified property, not a proof; evidence counts the steps where priority, '
-            'inner-first and eventless pre-emption actually discriminated.',
+            'inner-first and eventless pre-emption actually discriminated; half of the charts put one guard text, whose answer depends '
+            'on the event shown, on an eventless and an event-triggered transition of one state.',
             'trusted: seeded generator domain (DESIGN §2), reference model vf/refmodel.py, CPython', '§4 C01'),
     'C02': ('exploration', 'runtime monitor: legality postcondition on every return of execute_once',
             'legal()/stable()/final-stays-empty evaluated after every step of generated runs biased to orthogonal content '
